@@ -15,10 +15,10 @@
 //!   add_worker <id> rem=<time limit ms|-> rets=- wnew <id> tot= g= term=
 //!   lose_worker <id> ord=<w:first task of each ComputeTasks sent to w, in order;..|-> rets=R wlost <id> <reason> <0|1> <assigned order>
 //!   deliver_w2s <w> rets=R update <w> <items> | retracted <w> <ids> | other
-//!   deliver_s2w <w> compute fl=<ids whose next launch fails> <item>..   item = task:inst:rq:rv|p:tl ms|-:k|n|-
-//!   deliver_s2w <w> cancel <ids> fl=.. ends=<end>/..                    end = task:can|tmo:<rq.rv.0|1+..|->
+//!   deliver_s2w <w> compute fl=<ids whose next launch fails> rem=<remaining ms|-> <item>..   item = task:inst:rq:rv|p:tl ms|-:k|n|-
+//!   deliver_s2w <w> cancel <ids> fl=.. rem=.. ends=<end>/..             end = task:can|tmo:<rq.rv.0|1+..|->
 //!   deliver_s2w <w> retract <ids> | newrq <id> <min_time ms per variant joined by /> | other
-//!   end_task <w> <task> <fin|err> fl=.. en=<rq.rv.0|1+..|->
+//!   end_task <w> <task> <fin|err> fl=.. rem=.. en=<rq.rv.0|1+..|->
 //!   age_worker <w> <ms> rem=<remaining ms afterwards>
 //!   nop <act>                                                            (fail_next_launch, rest_check, flush gate)
 //! out lines: see `server_lines` / `worker_lines` (tags ev resp core msg cb flag t w q rd job tasks live launch stop
@@ -204,8 +204,10 @@ fn ends_text(ends: &[(TaskId, &str)], pre: &VerifWorkerSnapshot, removed: &[Task
     out
 }
 
-fn fl_text(fail_set: &[TaskId]) -> String {
-    format!("fl={}", tids(fail_set))
+/// `fl=` the tasks whose next launch the harness's launcher refuses, `rem=` the worker's remaining life time (ms) as the
+/// action finds it (`remaining_time()` reads the wall clock: the value is refreshed at every action that can evaluate it)
+fn fl_text(fail_set: &[TaskId], rem: Option<u64>) -> String {
+    format!("fl={} rem={}", tids(fail_set), rem.map(|r| r.to_string()).unwrap_or("-".into()))
 }
 
 // ------------------------------------------------------------------------------------------------
@@ -420,7 +422,7 @@ pub fn observe_case(tr: &mut Trace, sim: &mut Sim, acts: &[String]) {
                                 )
                             })
                             .collect();
-                        format!("compute {} {}", fl_text(&fail_set), items.join(" "))
+                        format!("compute {} {}", fl_text(&fail_set, p.rem), items.join(" "))
                     }
                     Some((_, ToWorkerMessage::RetractTasks(m))) => format!("retract {}", tids(&m.ids)),
                     Some((p, ToWorkerMessage::CancelTasks(m))) => {
@@ -428,7 +430,7 @@ pub fn observe_case(tr: &mut Trace, sim: &mut Sim, acts: &[String]) {
                         let ends: Vec<(TaskId, &str)> =
                             ctl.stopped.iter().skip(stopped_len).filter(|(x, _, _)| *x == w).map(|(_, t, tmo)| (*t, if *tmo { "tmo" } else { "can" })).collect();
                         let msgs = new_msgs(w, p.n_to_server);
-                        format!("cancel {} {} ends={}", tids(&m.ids), fl_text(&fail_set), join_or_dash(ends_text(&ends, &p.snap, &m.ids, &msgs), "/"))
+                        format!("cancel {} {} ends={}", tids(&m.ids), fl_text(&fail_set, p.rem), join_or_dash(ends_text(&ends, &p.snap, &m.ids, &msgs), "/"))
                     }
                     Some((_, ToWorkerMessage::NewResourceRequest(id, _))) => match rq_min.get(id.as_num() as usize) {
                         Some(mts) => format!("newrq {} {}", id.as_num(), mts.iter().map(|x| x.to_string()).collect::<Vec<_>>().join("/")),
@@ -448,7 +450,7 @@ pub fn observe_case(tr: &mut Trace, sim: &mut Sim, acts: &[String]) {
                     }
                     _ => "-".to_string(),
                 };
-                format!("end_task {} {} {} {} en={}", w, toks[1], toks[2], fl_text(&fail_set), en)
+                format!("end_task {} {} {} {} en={}", w, toks[1], toks[2], fl_text(&fail_set, pre.as_ref().and_then(|p| p.rem)), en)
             }
             "age_worker" => {
                 let w: u32 = toks[0].parse().unwrap();
@@ -592,7 +594,8 @@ pub fn main(mode: &str, args: &[String]) {
             if let Some(d) = a.value("--exhaust") {
                 // bounded exhaustive exploration (the runs of `hqv job|core gen --exhaust d`), each observed by a replay
                 let depth: usize = d.parse().unwrap();
-                for sc in 0..6u32 {
+                let only: Option<u32> = a.value("--scenario").map(|s| s.parse().unwrap());
+                for sc in (0..6u32).filter(|sc| only.is_none_or(|o| o == *sc)) {
                     crate::sim::exhaust(sc, depth, a.shard, a.nshards, |sim, leaf| {
                         let line = format!("case {} 0 sysw exhaust={depth} scenario={sc} {}", a.shard * 100_000_000 + sc as u64 * 10_000_000 + leaf, sim.header());
                         let acts = acts_of(sim);
